@@ -6,7 +6,8 @@ META = {
         level='Structural necessary conditions of the posterior clause are decided on every run for all 7 mixture models, the inline-PA E-step and all initialisers: '
               'which stored parameters reach the weight / log-pdf arguments of the one shared posterior routine, that the routine max-shifts, weights, masks, floors and '
               'normalises over the class axis in that order, that weights and initial affiliations are normalised over the class axis, fit_predict = predict(fit()), and that '
-              'every data-dependent denominator / log argument on these paths is positive, a class mass, or explicitly licensed. Not a proof of numeric validity of the values.',
+              'every data-dependent denominator / log argument on these paths is positive, a class mass, or explicitly licensed. Not a proof of numeric validity of the values. '
+              'Added after seeding / survey: the posterior returned by fit_predict is the unclipped one (the training clip constant does not reach the final predict).',
         note='Trusted: documented class axis (-2), numpy semantics table, licence table for denominators justified by "every class has non-zero mass". '
              'Not decided: finite-ness for extreme magnitudes inside norm/eigh, equality with an independent Bayes evaluation.',
         design='DESIGN.md section 3 (C01)'),
@@ -22,7 +23,8 @@ META = {
         level='Every public callable of the mixture, beamforming, masking, alignment, metric, initializer and solve modules (180 on the pinned tree) is analysed with its callees: no in-place '
               'effect may reach memory aliasing a parameter or stored field (set_snr excepted); no global/class-attribute writes; lazily set trainer attributes follow the '
               '`is None` + assert protocol; random numbers only when initialization is None; a cACGMM fit continued from a model starts with the E-step and has all M-step inputs assigned. '
-              'Decides necessary conditions, not bit-exact reproducibility.',
+              'Decides necessary conditions, not bit-exact reproducibility. '
+              'Also: the dimension a stateful trainer remembers / compares is the last axis of the observation.',
         note='Trusted: numpy view/copy table; results of unmodelled library calls may alias any argument (reported as unresolved, never as a violation). Cython variants not analysed.',
         design='DESIGN.md section 3 (C20)'),
     'C02': dict(
@@ -52,7 +54,8 @@ META = {
         level='The alternation clause is decided structurally for all 7 trainers (range(iterations), one unconditional M-step bound to the returned variable, one E-step on the current '
               'model under `model is not None` before it, aligner only in between, affiliation flow); saliency / weight_constant_axis / affiliation_eps plumbing for all 7 M-steps; '
               'fit_predict forwards every option by name; weighted estimators contract the shared observation index and divide by the saliency mass; Tyler weight and factor D; vMF clipping; '
-              'principal eigenpair. Closeness to the defining formulas / convergence are NOT decided.',
+              'principal eigenpair. Closeness to the defining formulas / convergence are NOT decided. '
+              'Also: Hermitian scatter (one conj) in the complex estimators, default saliency = ones / given saliency kept, vMF concentration r(D - r^2)/(1 - r^2) and mean resultant length in rational normal form, one gather by one mapping for posterior and quadratic form in the inline alignment.',
         note='Trusted: parameter naming of the estimators. Shares rule instances with C01-C03.',
         design='DESIGN.md section 3 (C08)'),
     'C10': dict(
@@ -60,28 +63,32 @@ META = {
         level='The defining sum of the PSD estimate is decided structurally for all three contractions (time index shared and summed, conjugate on the second sensor factor, source '
               'index first), the mask normalisation (time axis parameter, positive floor, only under normalize), the frame-count normaliser, the defensive copy (no in-place effect reaches '
               'mask / observation), existence of every numpy attribute used (boolean-mask conversion), the roll guard and the form of condition_covariance. '
-              'PSD-ness and numeric layout equivalence are NOT decided.',
+              'PSD-ness and numeric layout equivalence are NOT decided. '
+              'Every division of the mask by a mask-derived quantity is the floored time-axis sum.',
         note='Trusted: the defining formula in the property statement, numpy semantics table; numpy is imported only to resolve attribute names.',
         design='DESIGN.md section 3 (C10)'),
     'C11': dict(
         technique='static analysis: operand-role rules on term graphs, einsum sesquilinear structure, arg-max direction, abstract shapes for the NumPy>=2 solve contract',
         level='Roles of every operand of solve / stable_solve / trace / column selection in MVDR, Souden MVDR, WMWF, LCMV and the reference-channel criterion, exactly-one-conjugate '
               'inner products, arg-MAX of target-over-noise SNR, and that stacks of steering vectors reach numpy.linalg.solve as explicit column matrices. '
-              'Optimality inequalities and scaling invariances are NOT decided.',
+              'Optimality inequalities and scaling invariances are NOT decided. '
+              'Also: a channel selection vector contracts the column index of the WMWF filter matrix.',
         note='Trusted: NumPy >= 2 semantics of linalg.solve, documented argument shapes.',
         design='DESIGN.md section 3 (C11)'),
     'C12': dict(
         technique='static analysis: eigenpair-selection direction (R-SEL), operand roles, einsum structure, shape of scaling factors',
         level='eigh(target, noise) argument order, arg-max eigenvalue column / last pair of the ascending eigh, outer products with the conjugate on the second factor rescaled by '
               'tr(Phi)/tr(a a^H), Phi_nn w contracting the column index, both BAN chains and the (..., 1)-shaped absolute gain. Maximality of Rayleigh quotients is NOT decided; '
-              'Cython variants are not analysed.',
+              'Cython variants are not analysed. '
+              'Also: BAN gain = sqrt(two-factor form) / magnitude of the one-factor form, in either operand order, np.divide(where=) or masked assignment.',
         note='Trusted: scipy.linalg.eigh(a, b) convention, numpy eigh ordering.',
         design='DESIGN.md section 3 (C12)'),
     'C13': dict(
         technique='static analysis: partial evaluation of the wrapper on every accepted name (constant propagation + branch pruning), literal-axis rule for (..., ) functions, index-local loop rule',
         level='For all 12 names x {plain, +ban} plus chN: the primitives called, their order, the slots they are chained through and the returned value equal the composition the name spells. '
               'apply_beamforming_vector contracts conj(w) with the sensor axis; every literal axis in (..., )-documented beamforming functions counts from the right (phase_correction: -2); '
-              'stable_solve falls back per matrix, index-local; MVDR solves stacks as columns. Finite-ness on singular input is NOT decided.',
+              'stable_solve falls back per matrix, index-local; MVDR solves stacks as columns. Finite-ness on singular input is NOT decided. '
+              'Also: phase_correction rotates bin f by the phase of w_f^H w_{f-1} summed over sensors and accumulates phasors by a product; every data reduction in the per-index helpers names its axis.',
         note='Trusted: the naming convention of the wrapper itself; exceptions table for front-broadcast / fixed-layout axes.',
         design='DESIGN.md section 3 (C13)'),
     'C14': dict(
@@ -104,7 +111,8 @@ META = {
         level='Only the net-reordering clause is claimed: DHTV applies each per-bin permutation with the same index vector, bin and guard to features and mapping (identity start, self-gather only, '
               'on a copy, centroid from the current features); the greedy aligner composes adjacent-bin assignments with the composed predecessor in increasing f from an identity column. '
               'Of plan coverage only a necessary condition is decided: for every outcome of the branch conditions of alignment_plan some segment is stretched to each band edge (0 and F). '
-              'Recovery of a consistent order, identity on consistent masks and full plan coverage are NOT decided (no sound static argument in reach).',
+              'Recovery of a consistent order, identity on consistent masks and full plan coverage are NOT decided (no sound static argument in reach). '
+              'Also decided: the bins re-assigned in a DHTV segment are the bins its centroid was averaged over, cosine features are normalised over time, every planned segment spans segment_width bins.',
         note='The behavioural clauses of C16 quantify over all masks / all plan configurations; see DESIGN.md section 6.',
         design='DESIGN.md section 3 (C16)'),
     'C05': dict(
@@ -118,14 +126,16 @@ META = {
         technique='static analysis: literal-axis rule, flatten/restore typestate on term graphs, index-local loop rule, constructor-arity rule, einsum field-rank rule',
         level='For every `...`-documented distribution / mixture function: literal axes count from the right, axis-less reductions only in listed scalar idioms; every escaping value of a '
               'function that flattens leading axes passes a reshape derived from the original shape; the Bingham per-problem loop is index-local; numpy constructors get one shape argument; '
-              'stored fields get no more einsum core letters than documented. Numeric equality of slices is NOT decided.',
+              'stored fields get no more einsum core letters than documented. Numeric equality of slices is NOT decided. '
+              'Also: no layout-dependent flattening (order=K / A), np.squeeze names its axis.',
         note='Trusted: field comments / docstring shapes; the fixed-layout (F, K, T) integration models are excluded by their own contract.',
         design='DESIGN.md section 3 (C06)'),
     'C09': dict(
         technique='static analysis: sanitiser-dominance rules on term graphs (R-SAN)',
         level='Each parameter stored in a fitted model is the value of its documented sanitiser with the documented bounds as operands (vMF clip and floored-norm mean, Watson saturating '
               'spline, cACG max-normalisation + floor + finiteness assert + Hermitian scatter, Bingham bounded solver + floor + Hermitian scatter, uniform / L1-normalised weights, floored '
-              'Gaussian mass, Cholesky at construction). NaN-freeness on arbitrary degenerate data is NOT decided.',
+              'Gaussian mass, Cholesky at construction). NaN-freeness on arbitrary degenerate data is NOT decided. '
+              'Also: a relative eigenvalue floor is relative to the largest eigenvalue.',
         note='Trusted: sanitiser-per-field table from the documentation.',
         design='DESIGN.md section 3 (C09)'),
     'C18': dict(
@@ -139,7 +149,8 @@ META = {
         technique='static analysis: term identity rules for the power decomposition, AST idioms for self exclusion, constant-domain specialisation for the return_dict protocol, literal-axis rule',
         level='Both SXR functions compute _sxr(S, I+N), _sxr(S, I), _sxr(S, N) with identical S and the first denominator the sum of the others (for the pure ratio _sxr); own-source exclusion; input_sxr pools the sensors in the power domain (operands of _sxr are sensor means under average_channels, dB values are reduced over the source axis only); '
               'complete enumeration + arg-MAX output selection; return_dict True / prefix / False specialisations return dict / dict / tuple for both siblings; si_sdr reduces over -1 only with the '
-              'projection form; set_snr exponent. dB values and scaling laws as numbers are NOT decided.',
+              'projection form; set_snr exponent. dB values and scaling laws as numbers are NOT decided. '
+              'Also: power helper = mean |X|^2 over the axis parameter, set_snr multiplies the noise by the factor measured with keepdims over the same axis, the captured power is evaluated for every enumerated selection.',
         note='Trusted: metric definitions in the statement.',
         design='DESIGN.md section 3 (C19)'),
 }
